@@ -2,7 +2,8 @@
    case "M": restore(0|1)  cells  guards  requests   -> shared outcomes TAB fresh outcomes
      cells    ';'-separated  <owner>:<state>   state = d<v> | i | p<expr>
               expr = prefix tokens separated by '.' :  c.<n> | f.<m> | r.<id> | a.<e>.<e>
-     guards   ';'-separated  <cond>:<checked>   cond = - | <m>
+     guards   ';'-separated  <layers>:<checked>   layers = '|'-separated (base first), a layer =
+              ','-separated assertions, each - (passes) | <m> (fails with message g<m>)
      requests ';'-separated  e<limit>:<id> | m<limit>:<id> | g
      outcome  v<n> | s<digit code points> | g | Eu<m> | Ea<m> | Ei | Eo | P | F
    case "I": interned strings ('/'-separated, each a code point list)
@@ -36,8 +37,10 @@ let parse_cell (s : ostring) : cell =
       { owner = ow; st = state }
 
 let parse_guard (s : ostring) : guard =
-  match split ':' s with
-  | [c; k] -> { cond = (if c = "-" then None else Some (n_of_hex c)); checked = (k = "1") }
+  match String.split_on_char ':' s with
+  | [ls; k] ->
+      let layer l = List.map (fun c -> if c = "-" then None else Some (n_of_hex c)) (split ',' l) in
+      { layers = List.map layer (String.split_on_char '|' ls); checked = (k = "1") }
   | _ -> failwith "thunkmachine: bad guard"
 
 let parse_req (s : ostring) : req =
